@@ -2187,6 +2187,10 @@ class ImageIterator:
 
         sent = None
         n = 0
+        def size_tag() -> int:
+            # In cells and in pixels; the latter follows the cell size
+            return hash((image.rendered_size, image._get_render_size()))
+
         while repeat:
             if sent is None:
                 image._seek_position = n
@@ -2203,7 +2207,7 @@ class ImageIterator:
                     continue
                 else:
                     if cached:
-                        cache[n] = (frame, hash(image.rendered_size))
+                        cache[n] = (frame, size_tag())
 
             sent = yield frame
             n = n + 1 if sent is None else sent - 1
@@ -2215,12 +2219,12 @@ class ImageIterator:
                 if sent is None:
                     image._seek_position = n
                     frame, size_hash = cache[n]
-                    if hash(image.rendered_size) != size_hash:
+                    if size_tag() != size_hash:
                         frame = image._format_render(
                             image._render_image(img, alpha, frame=True, **style_args),
                             *fmt,
                         )
-                        cache[n] = (frame, hash(image.rendered_size))
+                        cache[n] = (frame, size_tag())
 
                 sent = yield frame
                 n = n + 1 if sent is None else sent - 1
